@@ -238,7 +238,144 @@ def check_reconnect(ctx, R="C20.reconnect"):
         ctx.finding(R, gs or base.node, "__getstate__", "_ElementReferencer.__getstate__ no longer replaces NetworkElement attribute values by _ElementPlaceholder(uid) on a copied state")
 
 
+def _ieval(e, env):
+    """Concrete evaluation of the integer / boolean expression language of the lane-id arithmetic."""
+    if isinstance(e, ast.Constant):
+        return e.value
+    if isinstance(e, ast.Name):
+        if e.id in env:
+            return env[e.id]
+        raise AnalysisError(f"shape not recognised: name `{e.id}` in lane-id arithmetic")
+    if isinstance(e, ast.UnaryOp) and isinstance(e.op, ast.USub):
+        return -_ieval(e.operand, env)
+    if isinstance(e, ast.UnaryOp) and isinstance(e.op, ast.Not):
+        return not _ieval(e.operand, env)
+    if isinstance(e, ast.BinOp) and isinstance(e.op, (ast.Add, ast.Sub, ast.Mult)):
+        a, b = _ieval(e.left, env), _ieval(e.right, env)
+        return a + b if isinstance(e.op, ast.Add) else a - b if isinstance(e.op, ast.Sub) else a * b
+    if isinstance(e, ast.IfExp):
+        return _ieval(e.body, env) if _ieval(e.test, env) else _ieval(e.orelse, env)
+    if isinstance(e, ast.BoolOp):
+        vals = [_ieval(v, env) for v in e.values]
+        return all(vals) if isinstance(e.op, ast.And) else any(vals)
+    if isinstance(e, ast.Compare):
+        left = _ieval(e.left, env)
+        for op, c in zip(e.ops, e.comparators):
+            r = _ieval(c, env)
+            ok = {ast.Lt: left < r, ast.LtE: left <= r, ast.Gt: left > r, ast.GtE: left >= r, ast.Eq: left == r, ast.NotEq: left != r}.get(type(op))
+            if ok is None:
+                raise AnalysisError("shape not recognised: comparison in lane-id arithmetic")
+            if not ok:
+                return False
+            left = r
+        return True
+    raise AnalysisError(f"shape not recognised: `{unparse(e)}` in lane-id arithmetic")
+
+
+def _irun(stmts, env):
+    for s_ in stmts:
+        if isinstance(s_, ast.If):
+            _irun(s_.body if _ieval(s_.test, env) else s_.orelse, env)
+        elif isinstance(s_, ast.Assign) and len(s_.targets) == 1 and isinstance(s_.targets[0], ast.Name):
+            env[s_.targets[0].id] = _ieval(s_.value, env)
+        elif lib.is_inert(s_):
+            continue
+        else:
+            raise AnalysisError(f"shape not recognised: `{norm_text(s_, 50)}` in lane-id arithmetic")
+
+
+def check_adjacency(ctx, R="C20.adjacent"):
+    ctx.rule(
+        R,
+        "adjacent-lane links are reciprocal by construction: the OpenDRIVE lane-id arithmetic that picks a lane's left and right neighbour "
+        "is evaluated for every id in -4..-1, 1..4 (finite interpretation of the integer code); whenever b is the left neighbour of a, a must be "
+        "the right neighbour of b (same travel direction) or the left neighbour of b (across the centre line), and whenever b is the right "
+        "neighbour of a, a must be the left neighbour of b.  The lookup within the tolerance uses the Euclidean neighbourhood point.buffer(tolerance)",
+    )
+    model = ctx.model
+    fn = None
+    for q, f in model.module("scenic.formats.opendrive.xodr_parser").functions.items():
+        if any(isinstance(a, ast.Assign) and any(unparse(t).endswith("._laneToLeft") for t in a.targets) for a in ast.walk(f)):
+            fn = f
+    if fn is None:
+        raise AnalysisError("shape not recognised: no function assigns _laneToLeft in xodr_parser")
+    loop = None
+    for l in ast.walk(fn):
+        if isinstance(l, ast.For) and any(isinstance(a, ast.Assign) and any(unparse(t).endswith("._laneToLeft") for t in a.targets) for a in l.body):
+            loop = l
+    if loop is None or not (isinstance(loop.target, ast.Tuple) and isinstance(loop.target.elts[0], ast.Name)):
+        raise AnalysisError("shape not recognised: loop assigning _laneToLeft / _laneToRight")
+    idv = loop.target.elts[0].id
+    left_e = right_e = None
+    arith = []
+    for s_ in loop.body:
+        if isinstance(s_, ast.Assign) and any(unparse(t).endswith("._laneToLeft") for t in s_.targets):
+            left_e = s_.value
+        elif isinstance(s_, ast.Assign) and any(unparse(t).endswith("._laneToRight") for t in s_.targets):
+            right_e = s_.value
+        elif left_e is None and right_e is None:
+            arith.append(s_)
+
+    def key_of(e):
+        if isinstance(e, ast.Call) and isinstance(e.func, ast.Attribute) and e.func.attr == "get" and len(e.args) == 1:
+            return e.args[0]
+        if isinstance(e, ast.Subscript):
+            return e.slice
+        raise AnalysisError("shape not recognised: neighbour lookup of _laneToLeft / _laneToRight")
+
+    lk, rk_ = key_of(left_e), key_of(right_e)
+    dom = [-4, -3, -2, -1, 1, 2, 3, 4]
+    left, right = {}, {}
+    for i in dom:
+        env = {idv: i}
+        _irun(arith, env)
+        left[i], right[i] = _ieval(lk, env), _ieval(rk_, env)
+    bad = []
+    for a in dom:
+        b = left[a]
+        if b in dom:
+            same = (a > 0) == (b > 0)
+            back = right[b] if same else left[b]
+            if back != a:
+                bad.append(f"left({a}) = {b} but {'right' if same else 'left'}({b}) = {back}")
+        b = right[a]
+        if b in dom:
+            if (a > 0) != (b > 0):
+                bad.append(f"right({a}) = {b} crosses the centre line")
+            elif left[b] != a:
+                bad.append(f"right({a}) = {b} but left({b}) = {left[b]}")
+    if bad:
+        ctx.finding(R, loop, "adjacent-lane id arithmetic not reciprocal", f"{lib.qualname_of(loop)}: the neighbour ids computed for lane ids -4..4 are not reciprocal: {'; '.join(bad[:4])}: laneToLeft / laneToRight (and the faster / slower lanes derived from them) of neighbouring lanes contradict each other")
+    else:
+        ctx.ok(R, loop, f"left / right neighbour ids are reciprocal for all lane ids in {dom}")
+    # tolerance neighbourhood
+    fp = model.func(RD, "Network.findPointIn")
+    helper = next((f for f in ast.walk(fp) if isinstance(f, ast.FunctionDef) and f is not fp and any(isinstance(c, ast.Call) and isinstance(c.func, ast.Attribute) and c.func.attr == "query" for c in ast.walk(f))), None)
+    if helper is None:
+        raise AnalysisError("shape not recognised: R-tree query helper of Network.findPointIn")
+    dp = helper.args.args[0].arg
+    pts = set(lib.locals_assigned(fp, lambda v: "shapely.geometry.Point" in unparse(v))) | {a.arg for a in fp.args.args}
+    ok_all = True
+    nq = 0
+    for asm, env, ex in lib.enumerate_paths(helper):
+        qs = [c for c in walk_local(helper) if isinstance(c, ast.Call) and isinstance(c.func, ast.Attribute) and c.func.attr == "query" and c.args]
+        for c in qs:
+            tgt = c.args[0]
+            val = env.get(tgt.id, tgt) if isinstance(tgt, ast.Name) else tgt
+            nq += 1
+            txt = unparse(val)
+            zero = any(lib.ctext(ast.parse(k, mode="eval").body) == lib.ctext_of(f"{dp} == 0") and v for k, v in asm.items())
+            if (zero and txt in pts) or any(txt == f"{p_}.buffer({dp})" for p_ in pts) or (isinstance(val, ast.IfExp) and unparse(val.orelse) in {f"{p_}.buffer({dp})" for p_ in pts}):
+                continue
+            ok_all = False
+            ctx.finding(R, c, "tolerance neighbourhood is not a disc", f"Network.findPointIn looks for elements intersecting `{txt}` (on the path {asm or '{}'}), not `point.buffer({dp})`: the neighbourhood is not the set of points within {dp} of the point, so elements farther away than the tolerance are reported (a box reaches sqrt(2) x tolerance along the diagonals)")
+            break
+    if nq and ok_all:
+        ctx.ok(R, helper, "elements are looked up within the Euclidean distance `tolerance` of the point (point.buffer)")
+
+
 def check(ctx):
+    check_adjacency(ctx)
     check_cache_guard(ctx)
     check_layout(ctx)
     check_reconnect(ctx)
